@@ -16,6 +16,7 @@ theorem findBlockN_names (x : Name) : ∀ (n : Node) (k : List Node), findBlockN
   | .call .., k, h => by simp [findBlockN] at h
   | .attr .., k, h => by simp [findBlockN] at h
   | .args, k, h => by simp [findBlockN] at h
+  | .incl _, k, h => by simp [findBlockN] at h
   | .defn _ _ _, k, h => by simp [findBlockN] at h
   | .callTag _, k, h => by simp [findBlockN] at h
   | .block nm _ kids, k, h => by
@@ -70,6 +71,7 @@ theorem findTopDef_names (x : Name) : ∀ (l : List Node) (ps : List (Name × Op
     | call _ _ _ _ => simp only [findTopDef] at h; exact fun a ha => by simp [namesL, ih h ha]
     | attr _ _ => simp only [findTopDef] at h; exact fun a ha => by simp [namesL, ih h ha]
     | args => simp only [findTopDef] at h; exact fun a ha => by simp [namesL, ih h ha]
+    | incl _ => simp only [findTopDef] at h; exact fun a ha => by simp [namesL, ih h ha]
     | block _ _ _ => simp only [findTopDef] at h; exact fun a ha => by simp [namesL, ih h ha]
     | callTag _ => simp only [findTopDef] at h; exact fun a ha => by simp [namesL, ih h ha]
 
@@ -117,6 +119,7 @@ theorem invoke_congr (c : List Level) (run1 run2 : Env → List Node → Res)
 
 /-- dispatches that agree on the names the chain mentions execute every part of the chain alike -/
 theorem exec_congr (c : List Level) (D1 D2 : Dispatch) (href : D1.ref = D2.ref) (hattr : D1.attr = D2.attr)
+    (hinc : D1.inc = D2.inc)
     (hget : ∀ ns x, x ∈ usedNames c → D1.getattr ns x = D2.getattr ns x) :
     ∀ f env nodes, namesL nodes ⊆ usedNames c → exec c D1 f env nodes = exec c D2 f env nodes := by
   intro f
@@ -135,6 +138,7 @@ theorem exec_congr (c : List Level) (D1 D2 : Dispatch) (href : D1.ref = D2.ref) 
       cases n with
       | text k => rfl
       | args => rfl
+      | incl _ => simp only [step, hinc]
       | defn _ _ _ => rfl
       | callTag kids =>
         simp only [step]
